@@ -540,6 +540,49 @@ def t04_marks(run, fx):
         run.anchor_missing(rule, "three mark-skipping arms in match_glyph (found %d)" % n)
 
 
+def t04_fmask(run, fx):
+    rule = "T04-FMASK"
+    run.rule(rule, "the feature table is complete and spelled right: every FeatureMask flag has exactly one row in gsub::FEATURE_MASKS, every row is a "
+                   "single flag, and the row's tag is the OpenType feature tag the flag is named after (ABVF -> 'abvf', RVRN -> 'rvrn', ...); "
+                   "FeatureMask::iter and as_tag unwrap the row of every set bit, and apply_rvrn / the feature collectors look features up by these tags")
+    tab = fx.const("gsub::FEATURE_MASKS")
+    flags = {}
+    for c in fx.tables["consts"]:
+        if c["path"].startswith("gsub::FeatureMask::") and isinstance(c.get("val"), int) and c.get("newtype"):
+            flags[c["path"].split("::")[-1]] = c["val"]
+    if tab is None or not tab.get("bytes") or not flags:
+        return run.anchor_missing(rule, "gsub::FEATURE_MASKS bytes / FeatureMask flag constants")
+    raw = bytes.fromhex(tab["bytes"])
+    size = (tab.get("elem_layout") or {}).get("size") or 16
+    n = tab.get("slice_len") or (len(raw) // size)
+    rows = []
+    for i in range(n):
+        r = raw[i * size:(i + 1) * size]
+        mask = int.from_bytes(r[0:8], "little")
+        tag = int.from_bytes(r[8:12], "little")
+        rows.append((mask, tag.to_bytes(4, "big").decode("latin1")))
+    by_mask = {}
+    for m, t in rows:
+        by_mask.setdefault(m, []).append(t)
+    bad = []
+    for name, v in sorted(flags.items()):
+        got = by_mask.get(v, [])
+        if len(got) != 1:
+            bad.append("%s has %d row(s)" % (name, len(got)))
+            continue
+        want = {name.lower()} if len(name) == 4 else {x.lower() for x in name.split("_OR_")}
+        if got[0] not in want:
+            bad.append("%s is paired with the tag '%s'" % (name, got[0]))
+    for m, ts in by_mask.items():
+        if m not in flags.values():
+            bad.append("row with mask %#x ('%s') is not a FeatureMask flag" % (m, ts[0]))
+    if bad:
+        run.fail(rule, "feature-mask-table", "gsub::FEATURE_MASKS and the FeatureMask flags disagree: %s - iterating a mask with such a bit panics on "
+                 "as_tag().unwrap(), and the feature is never found by its tag" % "; ".join(bad[:6]), "%s:%s" % (tab.get("file"), tab.get("line")))
+    else:
+        run.ok(rule, "%d flags, %d rows, one row per flag, tags spelled as the flags" % (len(flags), len(rows)))
+
+
 def check(run, fx, tier, floors=True):
     t04_type(run, fx)
     t04_rd(run, fx)
@@ -550,4 +593,6 @@ def check(run, fx, tier, floors=True):
     t04_skip(run, fx)
     if floors or fx.adt("context::IgnoreMarks") is not None:
         t04_marks(run, fx)
+    if floors or fx.const("gsub::FEATURE_MASKS") is not None:
+        t04_fmask(run, fx)
     recursion.run_rule(run, fx, "C01-a", lambda f: any(p.startswith("gsub::") for p in f.local_paths), floors_n=1 if floors else None)
